@@ -93,12 +93,14 @@ Record shape := mkShape {
   sh_defer_done : bool;        (* immediately followed by  defer done()     *)
   sh_stop_is_lc_stop : bool;   (* Stop() is exactly  r.lc.Stop()            *)
   sh_stopch_in_select : bool;  (* Run has a select with  case <-r.lc.StopCh() *)
-  sh_lc_only_so : bool         (* the lc field is used nowhere else         *)
+  sh_lc_only_so : bool;        (* the lc field is used nowhere else         *)
+  sh_done_only_deferred : bool (* the closure returned by Started() is used once: in that defer
+                                  (no early call, not passed on, not captured, not reassigned) *)
 }.
 
 Definition shape_ok (sh : shape) : bool :=
   sh_started_first sh && sh_defer_done sh && sh_stop_is_lc_stop sh && sh_stopch_in_select sh &&
-  sh_lc_only_so sh.
+  sh_lc_only_so sh && sh_done_only_deferred sh.
 
 Fixpoint names_eqb (a b : list string) : bool :=
   match a, b with
